@@ -516,7 +516,7 @@ func (img *image) run(j *job) (*jobResult, error) {
 				} else if exportedAsTruncated(exp, t, snap) {
 					// the values are replaced by their committed digests and the export is flagged
 					// "values truncated": nothing false is exported, but the values are silently dropped
-					diag = "exported-as-truncated" // a read past the end of the value log (fixes/C09-export-eof-beyond-end.diff)
+					diag = "exported-as-truncated" // a read past the end of the value log (repaired by 6fe0104)
 					if img.cfg.compression != 0 {
 						diag = "exported-as-truncated-compressed" // a damaged compressed block reads short
 					} else if snap != nil && !img.cfg.embedded {
